@@ -110,8 +110,16 @@ func checkExprFunctionCalls(expr Expression, allowAggr bool) error {
 		if fobj, have := GetAggrFunctionByName(fname); have && allowAggr {
 			if !fobj.VarArgs && nargs != fobj.NumArgs {
 				ret = NewSyntaxError(fcexpr.GetPos(), "Function %s require %d arguments but got %d", fobj.Name, fobj.NumArgs, nargs)
+				return false
 			}
-			return ret == nil
+			// The arguments are evaluated pair by pair, an aggregate
+			// function is not known there: sum(str(count(1)))
+			for _, arg := range fcexpr.Args {
+				if ret = checkExprFunctionCalls(arg, false); ret != nil {
+					break
+				}
+			}
+			return false
 		}
 		ret = NewSyntaxError(fcexpr.GetPos(), "Cannot find function %s", fname)
 		return false
